@@ -80,6 +80,13 @@ func c07templates() []c07tmpl {
 	add("statements with defers", "{|| defer \"D0\".p; «0:int»; defer \"D1\".p; «1:int»; «2:int»}()", "D0", "D1")
 	add("nested call defers", "{|| defer \"D0\".p; {|| defer \"D2\".p; «0:int»}(); «1:int»}()", "D0", "D2")
 	add("keyword default", "{|a, k: «0:int»| a}(«1:int»)")
+	add("duplicate keyword argument", "f(«0:int», «1:int», k: «2:int», k: «3:int»)")
+	add("duplicate keyword default", "{|a, k: «0:int», k: «1:int»| a}(1)")
+	add("duplicate object key", "{a: «0:int», a: «1:int»}")
+	add("duplicate map key", "%{1: «0:int», 1: «1:int»}")
+	add("statement after yield", "{|| yield «0:int»; «1:int»; 9}()")
+	add("recur argument after yield", "<{|i| yield i; recur(«0:int»)}>.new(1).next")
+	add("statement after return-less yield in iterator", "<{|i| yield «0:int»; «1:int»; recur(i + 1)}>.new(1).next")
 	add("symbol index", "o[«0:sym»]")
 	add("object of arrays", "{a: [«0:int», «1:int»], b: («2:int» + «3:int»)}")
 	add("nested call arguments", "f(f(«0:int», «1:int»), [«2:int»], k: -«3:int»)")
